@@ -1,6 +1,130 @@
 import PdeVerif.Json
+import PdeVerif.Model.Mesh
 namespace PdeVerif.Drv.C17
-open Lean PdeVerif
+open Lean PdeVerif PdeVerif.Mesh
 
-def handlers : List (String × Handler) := []
+def jN (n : Nat) : Json := toJson n
+def jNs (l : List Nat) : Json := Json.arr (l.map jN).toArray
+def jNss (l : List (List Nat)) : Json := Json.arr (l.map jNs).toArray
+def jPair (p : Nat × Nat) : Json := Json.arr #[jN p.1, jN p.2]
+def jPairs (l : List (Nat × Nat)) : Json := Json.arr (l.map jPair).toArray
+def jOptN (o : Option Nat) : Json := match o with | none => Json.null | some n => jN n
+def jOptI (o : Option Int) : Json := match o with | none => Json.null | some n => toJson n
+def jList {α} (f : α → Json) (l : List α) : Json := Json.arr (l.map f).toArray
+
+def fldNss (j : Json) (k : String) : Except String (List (List Nat)) := do getL (getL getN) (← fld j k)
+def fldBs (j : Json) (k : String) : Except String (List Bool) := do getL getB (← fld j k)
+
+def getMesh (j : Json) : Except String Mesh := do
+  let axes ← fldNss j "axes"
+  let periodic ← (match fldOpt j "periodic" with
+    | some v => getL getB v
+    | none => pure (axes.map fun _ => false))
+  pure { axes := axes, periodic := periodic }
+
+/-- row-major flat data <-> `Arr` (uses the model's own `ravel`/`unravel`) -/
+def arrOfFlat (shape : List Nat) (a : Array Int) : Arr Int := { shape := shape, get := fun p => a.getD (ravel shape p) 0 }
+def flatOfFun {α} (shape : List Nat) (f : List Nat → α) : List α := (List.range shape.prod).map fun i => f (unravel shape i)
+def flatOfArr {α} (a : Arr α) : List α := flatOfFun a.shape a.get
+
+/-- {"num":..,"chunks":..,"sizes":[..]} -> reference sizes (null = raises), contract and balance of
+the given (real) sizes -/
+def subdivideH (j : Json) : Except String Json := do
+  let num ← fldN j "num"
+  let chunks ← fldN j "chunks"
+  let sizes ← fldNs j "sizes"
+  let ref := match subdivideChecked num chunks with | none => Json.null | some l => jNs l
+  pure (Json.mkObj [("ref", ref), ("contract", toJson (contractB sizes num)), ("balanced", toJson (balancedB sizes))])
+
+def kindOf (s : String) : Except String GridKind :=
+  match s with
+  | "cartesian" => pure .cartesian | "spherical" => pure .spherical | "polar" => pure .polar
+  | "cylindrical" => pure .cylindrical | _ => throw s!"unknown grid kind {s}"
+
+def outcomeStr : Outcome → String
+  | .ok => "ok" | .unknownSize => "unknown-size" | .twoUnknown => "two-unknown"
+  | .notEnoughNodes => "not-enough-nodes" | .tooManyChunks => "too-many-chunks"
+  | .notImplemented => "not-implemented" | .indexError => "index-error" | .assertionError => "assertion-error"
+
+/-- {"kind":..,"r0nz":bool,"shape":[..],"dec":[ints],"mpi_size":n} -> outcome of from_grid -/
+def outcomeH (j : Json) : Except String Json := do
+  let kind ← kindOf (← fldS j "kind")
+  let r0nz ← fldB j "r0nz"
+  let shape ← fldNs j "shape"
+  let dec ← fldIs j "dec"
+  let mpiSize ← fldN j "mpi_size"
+  match parseDecomposition mpiSize shape.length dec with
+  | .error e => pure (Json.mkObj [("outcome", Json.str (outcomeStr e)), ("dec", Json.null)])
+  | .ok d => pure (Json.mkObj [("outcome", Json.str (outcomeStr (fromGridOutcome kind r0nz shape d))), ("dec", jNs d)])
+
+/-- all index bookkeeping of a mesh -/
+def meshH (j : Json) : Except String Json := do
+  let m ← getMesh j
+  let ids := List.range m.len
+  let rank := m.axes.length
+  let nb (id : Nat) : Json := jList (fun ax => Json.arr #[jOptN (neighbor m ax false id), jOptN (neighbor m ax true id)]) (List.range rank)
+  let fl (id : Nat) : Json := jList (fun ax => Json.arr #[
+      (match neighbor m ax false id with | none => Json.null | some o => jN (boundaryFlag id o false)),
+      (match neighbor m ax true id with | none => Json.null | some o => jN (boundaryFlag id o true))]) (List.range rank)
+  let contract := m.axes.all fun s => contractB s s.sum
+  pure (Json.mkObj [
+    ("dec", jNs m.dec), ("shape", jNs m.shape), ("len", jN m.len),
+    ("contract", toJson contract),
+    ("idx", jList (fun id => jNs (m.id2idx id)) ids),
+    ("id_back", jList (fun id => jN (m.idx2id (m.id2idx id))) ids),
+    ("slices", jList (fun s => jPairs (slices1d false s)) m.axes),
+    ("slices_ghost", jList (fun s => jPairs (slices1d true s)) m.axes),
+    ("box", jList (fun id => jPairs (m.box false id)) ids),
+    ("box_ghost", jList (fun id => jPairs (m.box true id)) ids),
+    ("sub_shape", jList (fun id => jNs (m.subShape id)) ids),
+    ("sub_periodic", Json.arr (m.subPeriodic.map toJson).toArray),
+    ("neighbors", jList nb ids),
+    ("flags", jList fl ids)])
+
+/-- {"axes":..,"kind":..,"bounds":[[lo,hi]..] (exact)} -> bounds of every sub-grid, the centres of its
+cells along every axis and its volume coefficient -/
+def boundsH (j : Json) : Except String Json := do
+  let m ← getMesh j
+  let ids := List.range m.len
+  let kind ← kindOf (← fldS j "kind")
+  let bq ← fld j "bounds"
+  let bs ← getL (fun p => do let l ← getL getQ p; match l with | [a, b] => pure (a, b) | _ => throw "bad bounds") bq
+  let one (id : Nat) : Json :=
+    let sb : List (Rat × Rat) := subBounds bs m.axes (m.id2idx id)
+    let shp := m.subShape id
+    let coords := (sb.zip shp).map fun (p, n) => (List.range n).map fun c => cellCoord p.1 p.2 n c
+    Json.mkObj [("bounds", jList (fun (p : Rat × Rat) => Json.arr #[jQ p.1, jQ p.2]) sb),
+                ("coords", jList jQs coords), ("vol", jQ (volCoef kind sb))]
+  pure (jList one ids)
+
+/-- {"axes":..,"ghost":bool,"data":[ints] (row-major, base array shape)} -> per node shape and data -/
+def extractH (j : Json) : Except String Json := do
+  let m ← getMesh j
+  let ghost ← fldB j "ghost"
+  let data ← fldIs j "data"
+  let a := arrOfFlat (m.arrShape ghost) data.toArray
+  if data.length ≠ (m.arrShape ghost).prod then throw "data length does not match the base array shape"
+  pure (jList (fun id =>
+    let s := m.extract ghost a id
+    Json.mkObj [("shape", jNs s.shape), ("data", jIs (flatOfArr s))]) (List.range m.len))
+
+/-- {"axes":..,"ghost":bool,"subs":[[ints] per node]} -> combined base array, null = not written -/
+def combineH (j : Json) : Except String Json := do
+  let m ← getMesh j
+  let ghost ← fldB j "ghost"
+  let subs ← getL (getL getI) (← fld j "subs")
+  let arrs : Array (Arr Int) := (subs.zipIdx.map fun (flat, id) =>
+    arrOfFlat ((m.subShape id).map (· + gadd ghost)) flat.toArray).toArray
+  let get (id : Nat) (p : List Nat) : Int := match arrs[id]? with | some a => a.get p | none => 0
+  pure (jList jOptI (flatOfFun (m.arrShape ghost) (m.combine ghost get)))
+
+/-- {"n":..,"upper":bool} -> [read index, write index] of `_MPIBC` along its axis -/
+def mpibcH (j : Json) : Except String Json := do
+  let n ← fldN j "n"
+  let upper ← fldB j "upper"
+  pure (Json.arr #[jN (mpiRead upper n), jN (mpiWrite upper n)])
+
+def handlers : List (String × Handler) := [
+  ("c17.subdivide", subdivideH), ("c17.outcome", outcomeH), ("c17.mesh", meshH), ("c17.bounds", boundsH),
+  ("c17.extract", extractH), ("c17.combine", combineH), ("c17.mpibc", mpibcH)]
 end PdeVerif.Drv.C17
